@@ -269,6 +269,7 @@ var c19Paths = map[string]bool{"account": true, "delegatee": true, "stakes": tru
 
 func checkC19(c *Ctx) {
 	c.rule = "a second replica replays each generated history and is queried (account, delegatee, stakes, stakes/total_power, reward, proposal, gov_params; known and unknown keys; heights 1..latest, 0, latest+1) right after each commit, in the middle of the next block, after later blocks and after a restart; each answer is parsed and compared with the projection of the state dump taken at that height on the primary replica, ResponseQuery.Height must be the requested (or latest) height, answers for a (path,key,height) never change (byte memo), and the queried replica must commit the same app hashes as the quiet primary. Concurrent mode (-race binary): latest-height queries from 4-8 goroutines during block execution; every answer must carry a height inside [last commit completed before the call, last commit started before the return] and the value of that height; the commit/query history of the height register is additionally checked with porcupine. distinct = distinct (path, moment kind, outcome) triples"
+	c.assumptions = append(c.assumptions, "application calls never overlap in the node: consensus, mempool and query connections share the one mutex of rigoLocalClient; concurrency is exercised as contention for that mutex, races that need two overlapping application calls are outside what the node can do (DESIGN 12.4)")
 	n := c.N(20, 250)
 	c.Parallel(n, 0, func(i int) {
 		rng := c.Rng("c19", i)
